@@ -270,6 +270,7 @@ void harness(void)
               "redirect_init fails although every system call it made succeeded (a valid configuration is refused)");
     if (failed_calls > 0) {
       VP_ASSERT(C10, r == -(int) failed_code, "redirect_init does not report the error of the call that failed");
+      VP_ASSERT(C04, r == -(int) failed_code, "Windows: an unusable redirect target is not reported with the error of the call that failed");
     }
     bool leak = false;
     for (int i = 0; i < NOBJ; i++) {
@@ -279,6 +280,7 @@ void harness(void)
     VP_ASSERT(C10, parent == 12345 || parent == PIPE_INVALID, "a failed redirect_init hands a pipe to the parent");
   } else {
     VP_ASSERT(C10, failed_calls == 0 && !crt_bad, "redirect_init reports success although a call it depends on failed");
+    VP_ASSERT(C04, failed_calls == 0 && !crt_bad, "Windows: redirect_init reports success although a call it depends on failed");
     VP_ASSERT(C10, co >= 0 && obj[co].open, "the child's end is not an open handle");
     if (co >= 0) {
       switch (t) {
